@@ -39,12 +39,13 @@ Inductive outcome :=
 
 (* interface.py:fromFunction(func, imlevel): for a raw def with [npos raw] positional
    parameters of which [npos raw - req raw] have defaults:
+       if imlevel > code.co_argcount: imlevel = code.co_argcount   (instance taken by *args)
        na = code.co_argcount - imlevel
        nr = na - len(defaults);  if nr < 0: nr = 0
        positional = names[:na]; required = names[:nr]; varargs / kwargs from co_flags
-   (truncated subtraction on nat is the clamp at 0; faithful when imlevel <= npos raw, the
-   code indexes names with a negative number otherwise). *)
+   (truncated subtraction on nat is the clamp of nr at 0). *)
 Definition from_function (raw : sig) (imlevel : nat) : sig :=
+  let imlevel := Nat.min imlevel (npos raw) in
   let na := npos raw - imlevel in
   let ndefaults := npos raw - req raw in
   let nr := na - ndefaults in
